@@ -130,8 +130,11 @@ func (tx *Transaction) EncodeRLP(w io.Writer) error {
 // DecodeRLP implements rlp.Decoder
 func (tx *Transaction) DecodeRLP(s *rlp.Stream) error {
 	_, size, _ := s.Kind()
-	err := s.Decode(&tx.data)
+	var dec txdata
+	err := s.Decode(&dec)
 	if err == nil {
+		// a value that is decoded into again must not keep the hash and sender cached for its previous content
+		*tx = Transaction{data: dec}
 		tx.size.Store(common.StorageSize(rlp.ListSize(size)))
 	}
 
